@@ -143,6 +143,8 @@ func ParseBuildResult(s string) BuildResult {
 	return r
 }
 
+var leaksSeen int // builds of this process that left a goroutine behind
+
 // BuildInChild builds the case with the public API under recover and a goroutine count
 // before/after, and disassembles what was built. It has no timeout of its own: the parent
 // kills a child that does not answer in time (Runner.Timeout) and records HANG.
@@ -207,13 +209,20 @@ func BuildInChild(b BuildCase) (res BuildResult) {
 	rec.mu.Lock()
 	res.Served = rec.served[res.Path] || rec.served[strings.TrimPrefix(res.Path, "/")]
 	rec.mu.Unlock()
-	// the lexer goroutine ends right after closing its channel: give it a moment
-	deadline := time.Now().Add(2 * time.Second)
+	// the lexer goroutine ends right after closing its channel: give it a moment (after a few leaks in this process —
+	// code that is broken in this respect leaks on thousands of inputs — a shorter moment: a goroutine that is blocked
+	// for good does not end however long one waits)
+	wait := 2 * time.Second
+	if leaksSeen >= 3 {
+		wait = 5 * time.Millisecond
+	}
+	deadline := time.Now().Add(wait)
 	for runtime.NumGoroutine() > base && time.Now().Before(deadline) {
 		time.Sleep(50 * time.Microsecond)
 	}
 	if n := runtime.NumGoroutine(); n > base {
 		res.Leak = n - base
+		leaksSeen++
 	}
 	return res
 }
